@@ -521,6 +521,93 @@ pub fn c08(args: &Args) -> Report {
     fold(res, &["panic", "codec"], 0, json!({}))
 }
 
+pub fn c17_e1(tier: Tier) -> Vec<ExploreResult> {
+    let mk: &MkMon = &|_s: &Scenario| Box::new(mons::C17::default());
+    let mut scns = vec![];
+    // condition codes: 1 positive ack limit, 7 nak limit, 8 inactivity, 5 checksum, 6 file size
+    for mc in tier.pick(vec![1u32, 2], vec![1u32, 2, 3]) {
+        for action in [None, Some(0u8), Some(2), Some(1), Some(3)] {
+            if tier == Tier::Quick && mc == 1 && matches!(action, Some(0)) {
+                continue;
+            }
+            for (ack, closure) in [(true, false), (false, true)] {
+                let an = match action {
+                    None => "unset",
+                    Some(0) => "cancel",
+                    Some(1) => "suspend",
+                    Some(2) => "ignore",
+                    _ => "abandon",
+                };
+                let mut s = Scenario::base(&format!("{} max_count={} handlers={} blackout + F=1 t", named("c17", ack, closure), mc, an));
+                s.ack = ack;
+                s.closure = closure;
+                s.max_count = mc;
+                s.file_size = Some(17);
+                s.blackout = vec![LinkId::SR, LinkId::RS];
+                s.faults = 1;
+                s.k_delay = true;
+                if let Some(a) = action {
+                    s.handlers = vec![(1, a), (7, a), (8, a), (10, a)];
+                    if a == 2 {
+                        // ignoring a limit fault repeats it forever: cycles are the expected shape
+                        s.allow_cycles = true;
+                    }
+                }
+                scns.push(s.clone());
+                if ack && mc == 2 {
+                    // the answer arrives late / just before an expiry: drops make the timers run
+                    let mut l = s.clone();
+                    l.name = format!("{} max_count={} handlers={} F=2 dt", named("c17", ack, closure), mc, an);
+                    l.blackout = vec![];
+                    l.faults = 2;
+                    l.k_drop = true;
+                    l.k_delay = true;
+                    scns.push(l);
+                }
+            }
+            // integrity faults by an injected bad EOF
+            let an = action.map_or("unset".to_string(), |a| ["cancel", "suspend", "ignore", "abandon"][a as usize].to_string());
+            if mc == 2 {
+                let mut b = Scenario::base(&format!("c17 ack max_count={} handlers={} injected bad EOF", mc, an));
+                b.max_count = mc;
+                b.file_size = Some(17);
+                b.inject = vec![InjectSpec::BadEof { checksum_xor: 1, size_delta: 0 }, InjectSpec::BadEof { checksum_xor: 0, size_delta: -1 }];
+                b.inject_budget = 1;
+                if let Some(a) = action {
+                    b.handlers = vec![(5, a), (6, a)];
+                    if a == 2 {
+                        b.allow_cycles = true;
+                    }
+                }
+                scns.push(b);
+            }
+        }
+    }
+    // timeout grid: an inactivity timeout shorter than the NAK and ack timeouts, so that the
+    // sender's inactivity timer expires between two answers of a slow receiver
+    for (ti, ta, tn) in tier.pick(vec![(50i64, 100i64, 70i64)], vec![(50, 100, 70), (80, 100, 30), (250, 100, 70)]) {
+        let mut g = Scenario::base(&format!("c17 ack timeouts=({},{},{}) max_count=2 size=33 F=3 d", ti, ta, tn));
+        g.t_inact = ti;
+        g.t_ack = ta;
+        g.t_nak = tn;
+        g.max_count = 2;
+        g.file_size = Some(33);
+        g.faults = 3;
+        g.k_drop = true;
+        scns.push(g);
+    }
+    run_all(scns, mk, tier)
+}
+
+pub fn c17(args: &Args) -> Report {
+    let mk: &MkMon = &|_s: &Scenario| Box::new(mons::C17::default());
+    if args.replay.is_some() {
+        return replay_e1(args, mk);
+    }
+    let res = c17_e1(args.tier);
+    fold(res, &["panic", "codec"], 0, json!({}))
+}
+
 /// debugging aid: vcheck DBG <file.json> with {"scenario":…, "histories":[[…],[…]]}
 pub fn dbg(args: &Args) -> Report {
     let mk: &MkMon = &|_s: &Scenario| Box::new(mons::C02::default());
